@@ -816,6 +816,43 @@ Definition pipeline (left right : list op) (r : runner) (h : heaps) : state :=
   let sl := run_ops left (subshell_state true r h) in
   run_ops right (mkSt r (st_h sl) (st_panic sl)).
 
+(* ---- two threads on one heap (C32) ------------------------------------------------------- *)
+(* The parent Runner and a background copy take steps in any interleaving on the
+   shared heaps.  cf_ta / cf_to are ghost state (they never influence a step): for
+   every array cell / object, which thread allocated it after the fork (TParent,
+   TChild), or how the cells that existed at the fork are classified (TParent = the
+   parent's private roots, TShared = everything else). *)
+Inductive tid := TParent | TChild | TShared.
+Definition tid_eqb (a b : tid) : bool :=
+  match a, b with TParent, TParent | TChild, TChild | TShared, TShared => true | _, _ => false end.
+
+Record conf := mkConf {
+  cf_p : runner; cf_pp : bool;       (* parent Runner, its panic flag *)
+  cf_c : runner; cf_cp : bool;       (* the copy *)
+  cf_h : heaps;
+  cf_ta : list tid; cf_to : list tid }.
+
+Definition retag (tags : list tid) (t : tid) (n : nat) : list tid :=
+  tags ++ repeat t (n - length tags).
+
+(* an event: (true, o) = the parent runs o, (false, o) = the copy runs o *)
+Definition sched_step (cf : conf) (ev : bool * op) : conf :=
+  if fst ev then
+    let s := step_state (mkSt (cf_p cf) (cf_h cf) (cf_pp cf)) (snd ev) in
+    mkConf (st_r s) (st_panic s) (cf_c cf) (cf_cp cf) (st_h s)
+           (retag (cf_ta cf) TParent (length (ha (st_h s)))) (retag (cf_to cf) TParent (length (ho (st_h s))))
+  else
+    let s := step_state (mkSt (cf_c cf) (cf_h cf) (cf_cp cf)) (snd ev) in
+    mkConf (cf_p cf) (cf_pp cf) (st_r s) (st_panic s) (st_h s)
+           (retag (cf_ta cf) TChild (length (ha (st_h s)))) (retag (cf_to cf) TChild (length (ho (st_h s)))).
+Definition run_sched (evs : list (bool * op)) (cf : conf) : conf := fold_left sched_step evs cf.
+
+(* Runner.subshell(true) at the fork; ta/to classify the cells that exist *)
+Definition fork_conf (r : runner) (h : heaps) (ta to : list tid) : conf :=
+  let s := subshell_state true r h in
+  mkConf r false (st_r s) (st_panic s) (st_h s)
+         (retag ta TChild (length (ha (st_h s)))) (retag to TChild (length (ho (st_h s)))).
+
 End Model.
 
 (* ---- bgProcs and wait ------------------------------------------------------------------ *)
